@@ -46,3 +46,54 @@ Proof.
   exists a_coord, (mkN "x1" "dd" "bb" "ir"). eexists. eexists.
   repeat split; try reflexivity. eexists. eexists. repeat split; reflexivity.
 Qed.
+
+(* ---- Data.__str__ before handoff/C19-fix2-1.diff: the three conversion sites
+   caught (ValueError, OverflowError) only.  netCDF4.num2date raises
+   AttributeError for a NaN or infinite scalar: str() of one-element
+   reference-time data holding NaN raised; the repaired code shows "??". *)
+Definition d_nan : ddata :=
+  mkDD true (UStr "days since 2000-01-01") None [1%nat] [EVal "nan"]
+       (CErr XAttr) (COk ("", "")) (COk "").
+
+Theorem C19_before_nan_reftime_refuted :
+  exists d, wf_ddata d = true /\ data_str k_before d = Err OtherErr /\
+            data_str k_repaired d = Ok "[??]".
+Proof. exists d_nan. repeat split; reflexivity. Qed.
+
+(* the same for the middle element of three (NaN or inf between two good values) *)
+Definition d_mid (e : cerr) : ddata :=
+  mkDD true (UStr "days since 2000-01-01") (Some "noleap") [3%nat]
+       [EVal "1.0"; EVal "x"; EVal "3.0"] (COk "a") (COk ("a", "c")) (CErr e).
+
+Theorem C19_before_nan_middle_refuted :
+  wf_ddata (d_mid XAttr) = true /\ data_str k_before (d_mid XAttr) = Err OtherErr /\
+  data_str k_repaired (d_mid XAttr) = Ok "[a, ??, c] noleap".
+Proof. repeat split; reflexivity. Qed.
+
+(* every site needs its own guard: a variant whose third site (the middle
+   element) catches nothing because the first/last conversion succeeded fails
+   for a middle value out of the date range (seeded change C19-s1) *)
+Theorem C19_unguarded_middle_refuted :
+  exists k, k_single k = catch_vo /\ k_pair k = catch_vo /\
+            data_str k (d_mid XOverflow) = Err OtherErr /\
+            data_str k_before (d_mid XOverflow) = Ok "[a, ??, c] noleap".
+Proof. exists (mkK catch_vo catch_vo (fun _ => false)). repeat split; reflexivity. Qed.
+
+(* iterating over the cell methods in sorted key order (as dump() may) instead
+   of application order rebuilds a different field as soon as the keys do not
+   sort into application order: 'cellmethod10' < 'cellmethod2' (seeded change
+   C19-s2) *)
+Definition cm_a : acon := mkA (mkV "CellMethod" [] None []) FPlain [] None None [A1 "set_method" 1%Z].
+Definition cm_b : acon := mkA (mkV "CellMethod" [] None []) FPlain [] None None [A1 "set_method" 2%Z].
+Definition cms_w : list (string * acon) := [("cellmethod2", cm_a); ("cellmethod10", cm_b)].
+
+Theorem C19_sorted_cell_methods_refuted :
+  exists cms cs e o,
+    compile_fld true "f" "d" (mkF (mkV "Field" [] None []) [] (cm_items (sort_by_key cms)) []) = Ok cs /\
+    run cs [] = Some e /\ assoc "f" e = Some (VObj o) /\
+    o_items o <> o_items (den_fld (mkF (mkV "Field" [] None []) [] (cm_items cms) [])).
+Proof.
+  exists cms_w. eexists. eexists. eexists.
+  split; [reflexivity|]. split; [reflexivity|]. split; [reflexivity|].
+  vm_compute. discriminate.
+Qed.
